@@ -1,7 +1,7 @@
 (** C26: value arguments that refer to the array's own elements.
-    - Array.h as it is ([guard = false]): such arguments are fine exactly when nothing is moved or freed before the value
+    - Array.h before the repair ([guard = false]): such arguments are fine exactly when nothing is moved or freed before the value
       is read (push_back / resize without reallocation); the failing cases are the [_refuted] witnesses of C26_Proofs.v.
-    - Array.h with the repair of patches/C26_alias_value.diff ([guard = true]): all four operations have std::vector
+    - Array.h with the isOwnElement repair, commit 91dbee05 ([guard = true], the current source): all four operations have std::vector
       semantics for every own-element argument.  Helper file for C26_Proofs.v. *)
 From Coq Require Import List Arith Bool NArith Lia.
 Import ListNotations.
